@@ -442,6 +442,8 @@ def _plan(tier):
             plan.append(("grand", dict(n=n, delta=delta, via_setter=False), ("grand:decided",)))
     plan.append(("grand", dict(n=1, delta=1, via_setter=True), ("grand:decided",)))
     plan.append(("grand", dict(n=2, delta=-1, via_setter=True), ("grand:decided",)))
+    plan.append(("canonical", dict(n=1, via_setter=False), (), "decision==textbook"))
+    plan.append(("grand", dict(n=1, delta=-1, via_setter=False), (), "decision==textbook"))
     return plan
 
 
